@@ -38,6 +38,8 @@ struct Gen { std::vector<uint8_t> bytes; bool pristine = true; bool tc = false; 
 void put_name(Src &s, Builder &b, const Labels &l, bool adv, bool *pristine, std::vector<size_t> &name_offsets) {
   int mode = adv ? s.below(12) : s.below(3);
   size_t here = b.size();
+  // a label with a NUL octet cannot be carried by the C strings of the API: evdns refuses such a message (an error is always allowed), so it is not "a valid reply that must be used"
+  for (auto &x : l) if (x.find('\0') != std::string::npos) *pristine = false;
   switch (mode) {
     case 0: b.name(l); name_offsets.push_back(here); break;
     case 1: b.labels_then_ptr(l, 12); name_offsets.push_back(here); break;                  // suffix = the question name
